@@ -487,6 +487,33 @@ static void stage_compose(int sh, int ns, bool T) {
   }
 }
 
+// ------------------------------------------------------------------------------------------------ position sweep
+// n = 0..70 ASCII bytes of padding (a) before the first non-ASCII code point, (b) between two of them, (c) after the last
+// one: the UTF-8 -> UTF-32 transcoder, the ASCII scans and the lower-casing loop work on 8/16-byte blocks, so behaviour may
+// depend on where in a block a non-ASCII byte falls.  The padding is either dotted (labels of 20 bytes) or, for n <= 40, one
+// run inside the label.  Non-ASCII material: one member of each spelling pair the orbit generators link (precomposed /
+// decomposed, fullwidth, ideographic stop, upper-case non-ASCII, soft hyphen) and a 3-byte and a 4-byte code point.
+static std::string sweep_pad(int n, bool dotted) {
+  std::string p;
+  for (int i = 0; i < n; i++) p.push_back(dotted && i % 21 == 20 ? '.' : char('a' + (i % 21) % 20));
+  return p;
+}
+template <class F>
+static void position_sweep(int sh, int ns, uint64_t& ord, F&& f) {
+  const std::vector<U32> units = {U32{0x00E9}, U32{U'e', 0x0301}, U32{0xFF21}, U32{0x3002}, U32{0x00DC}, U32{U'a', 0x00AD, U'b'}, U32{0x4E2D}, U32{0x1F600}};
+  for (int dotted = 1; dotted >= 0; dotted--)
+    for (int n = 0; n <= (dotted ? 70 : 40); n++)
+      for (int place = 0; place < 3; place++)
+        for (const U32& u : units) {
+          if (int(ord++ % ns) != sh) continue;
+          if (out_of_time()) return;
+          U32 pad; for (char c : sweep_pad(n, dotted)) pad.push_back((unsigned char)c);
+          U32 x = place == 0 ? pad + u + U"z" : place == 1 ? u + pad + u : U"z" + u + pad;
+          R.counters["position_sweep_domains"]++;
+          f(x);
+        }
+}
+
 // ------------------------------------------------------------------------------------------------ stage: labelseq
 // Domains built from a menu of WHOLE labels: what is probed is state carried from one label to the next (scratch buffers,
 // the Bidi-domain flag, the output cursor).  Every ACE label of the menu is built with the RFC 3492 reference encoder.
@@ -542,6 +569,7 @@ static void stage_labelseq(int sh, int ns, bool T) {
   g_extra["label_menu"] = std::to_string(full.size()); g_extra["label_menu_reduced"] = std::to_string(red.size());
   enum_label_seq(full, 2, 3, sh, ns, ord, labelseq_one);
   if (T) enum_label_seq(red, 4, 4, sh, ns, ord, labelseq_one);
+  position_sweep(sh, ns, ord, [&](const U32& x) { compose_one(x); stage_url_label(x); });
 }
 
 // ------------------------------------------------------------------------------------------------ stage: url
@@ -776,6 +804,12 @@ static std::vector<std::pair<U32, const char*>> orbit(const U32& x, bool canonic
   // the four dots
   for (size_t i = 0; i < x.size(); i++)
     for (char32_t d : DOTS) if (x[i] == d) for (char32_t e : DOTS) if (e != d) { U32 y = x; y[i] = e; add(y, "dots"); }
+  // a mapped code point <-> its (valid) mapping, e.g. U+00DC <-> U+00FC: the mapping step makes both spellings identical
+  for (size_t i = 0; i < x.size(); i++) {
+    if (x[i] < 0x80 || !is_scalar(x[i])) continue;
+    auto e = refidna::map_code_point(x[i]);
+    if (e.status == refidna::Status::Mapped && all_valid_status(e.mapping) && e.mapping != U".") { U32 y = x.substr(0, i) + e.mapping + x.substr(i + 1); add(y, "mapped"); }
+  }
   // ignored code points at every position
   for (size_t i = 0; i <= x.size(); i++) for (char32_t g : IGNORED) { U32 y = x; y.insert(y.begin() + i, g); add(y, "ignored-insert"); }
   for (size_t i = 0; i < x.size(); i++) for (char32_t g : IGNORED) if (x[i] == g) { U32 y = x; y.erase(i, 1); add(y, "ignored-insert"); }
@@ -857,6 +891,7 @@ static void stage_orbit(int sh, int ns, bool T) {
   g_extra["label_menu"] = std::to_string(full.size());
   enum_label_seq(full, 2, T ? 3 : 2, sh, ns, ord, [&](const U32& x) { R.counters["label_sequence_domains"]++; c16_one(x, true, true, "label-seq"); });
   enum_label_seq(red, 3, 3, sh, ns, ord, [&](const U32& x) { if (!T) { R.counters["label_sequence_domains"]++; c16_one(x, true, true, "label-seq"); } });
+  position_sweep(sh, ns, ord, [&](const U32& x) { c16_one(x, true, true, "sweep"); });
 }
 static void stage_labels(int sh, int ns, bool T) {
   uint64_t ord = 0;
